@@ -68,7 +68,7 @@ fn allowed_values(sp: &SyncPt, spans: &[OpSpan], k: u64, sec: u64, cs: u64, vsiz
     }
     let byte = sec * 512;
     for s in spans {
-        if s.start_seq < sp.seq || s.start_seq > k {
+        if s.end_seq < sp.alt_from || s.start_seq > k {
             continue;
         }
         match s.base {
@@ -422,7 +422,7 @@ fn enumerate(w: &mut World, prop: &str, seed: u64, extra: &mut BTreeMap<&'static
                                 // may read anything once its host cluster
                                 // has been re-used
                                 let disc = spans.iter().any(|s| {
-                                    s.base.is_none() && s.start_seq >= sp.seq && s.start_seq <= k && {
+                                    s.base.is_none() && s.end_seq >= sp.alt_from && s.start_seq <= k && {
                                         let end = s.off.saturating_add(s.len).min(vsize);
                                         *g >= s.off.div_ceil(cs) && *g < end / cs
                                     }
@@ -444,7 +444,7 @@ fn enumerate(w: &mut World, prop: &str, seed: u64, extra: &mut BTreeMap<&'static
                                     && spans.iter().any(|s| {
                                         s.base.is_some()
                                             && s.len > 0
-                                            && s.start_seq >= sp.seq
+                                            && s.end_seq >= sp.alt_from
                                             && s.start_seq <= k
                                             && s.off / cs <= *g
                                             && (s.off + s.len - 1) / cs >= *g
